@@ -376,6 +376,9 @@ def replay(rec):
     if rec.get("mode") == "api":
         from checks import c09_api
         return c09_api.replay(rec)
+    if rec.get("mode") == "models":
+        from checks import c09_models
+        return c09_models.replay(rec)
     c = rec["cex"]
     if c.get("selftest"):
         return {"reproduces": True, "failing": ["selftest"], "signature": None}
@@ -462,6 +465,9 @@ def replay(rec):
 
 
 def run_task(task):
+    if task["params"].get("mode") == "models":
+        from checks import c09_models
+        return c09_models.run_task(task)
     from checks import c09_api
     return c09_api.run_task(task)
 
@@ -472,6 +478,17 @@ def main(tier, seed, t0, selftest=False):
     api_tasks = [] if selftest else [
         {"prop": PROP, "family": fam, "label": f"api/{fam}", "timebox": box, "seed": seed, "params": {"mode": "api"}}
         for fam, box in (("U2", 40 if tier == "quick" else 600), ("S1C2", 40 if tier == "quick" else 600), ("D3", 40 if tier == "quick" else 900))]
+    # published models: answers of the real trappist() decided by z3 over the validated Petri net (checks/c09_models.py)
+    if not selftest:
+        import glob
+        mdir = os.path.join(os.environ.get("VERIF_REPO", "/repo"), "models/bbm-bnet-inputs-true")
+        paths = sorted(glob.glob(os.path.join(mdir, "*.bnet")), key=os.path.getsize)
+        small, rest = paths[:150], paths[150:]
+        for i in range(0, len(small), 15):
+            api_tasks.append({"prop": PROP, "family": "-", "label": "models/small", "timebox": 15, "seed": seed, "params": {"mode": "models", "models": small[i:i + 15], "max_calls": 12}})
+        for i in range(0, len(rest), 3):
+            api_tasks.append({"prop": PROP, "family": "-", "label": "models/large", "timebox": 20 if tier == "quick" else 120, "seed": seed,
+                              "params": {"mode": "models", "models": rest[i:i + 3], "max_calls": 4 if tier == "quick" else 12}})
     api_results = common.run_tasks(api_tasks) if api_tasks else []
     ns = [2, 3] if tier == "quick" else [2, 3, 4]
     jobs = []
@@ -506,6 +523,11 @@ def main(tier, seed, t0, selftest=False):
         for i in r.get("inconclusive", []):
             unk.append({"status": "unknown", "detail": "api harness: " + str(i.get("reason")), "job": r.get("label")})
         for c in r.get("violations", [])[:3]:
+            if c.get("kind") == "model":
+                rec = {"property": PROP, "mode": "models", "rules": "", "hist": {}, "params": {"mode": "models"}, "info": c["info"]}
+                v = common.replay_record(PROP, rec)
+                (violations if v.get("reproduces") is True else nonrepro).append(({"cex": rec}, v))
+                continue
             rec = {"property": PROP, "mode": "api", "rules": c["rules"], "hist": c.get("hist", {}), "params": {"mode": "api"}}
             v = common.replay_record(PROP, rec)
             (violations if v.get("reproduces") is True else nonrepro).append(({"cex": rec}, v))
@@ -521,7 +543,8 @@ def main(tier, seed, t0, selftest=False):
            "z3_s": round(sum(r.get("z3_s", 0) for r in results), 2),
            "functions_encoded": FUNCTIONS,
            "bounds": {"n": ns + ([4] if tier == "quick" else []), "quantified": "all networks, all implicant covers, all avoid lists, all source lists (trappist); plus all retained sets and ensure spaces (reduced STG)",
-                      "api": "real trappist()/compute_fixed_point_reduced_STG() on symbolic networks (U2, S1C2, D3), both input forms, symbolic problem / ensure / one avoid space / default-or-explicit sources / limit -1..4; forward time only",
+                      "api": "real trappist()/compute_fixed_point_reduced_STG() on symbolic networks (U2, S1C2, D3), both input forms, symbolic problem / ensure / up to two avoided spaces / default-or-explicit sources / limit -1..4 / time direction",
+                      "published models": "all 210 models: real trappist(min/max/fix) with ensure in {whole space, first node spaces} and avoid in {none, first answer, first two answers}; per call z3 decides over all subspaces of the validated Petri net that the answers are exactly the requested trap spaces (quick: 12 calls on the 150 smaller models, 4 on the others); forward time; calls cut off at 400 solutions are skipped",
                       "enumerated": "problem kind, time direction, ensure subspace (quick: n=4 only ensure with <= 1 fixed variable)",
                       "outside": "n > 4; DiGraphs that are not implicant covers; the avoid space {} for trappist (emits an empty-body constraint)"},
            "exhaustive": not bad and not unk}
